@@ -69,7 +69,7 @@ def judge(case):
 def coarse_spaces(tier, seed):
     q = tier == "quick"
     base = {
-        "mixture": ["H2O_EtOH", "S2"] if q else ["H2O_EtOH", "H2O_iPOH", "MeOH_DMC", "MeOH_Toluene", "S1", "S2", "S4"],
+        "mixture": ["H2O_EtOH", "MeOH_MTBE", "S2"] if q else ["H2O_EtOH", "H2O_iPOH", "MeOH_DMC", "MeOH_MTBE", "MeOH_Toluene", "S1", "S2", "S4"],
         "model": ["NRTL", "UNIQUAC"],
         "mode": ["vac", ("T", -20.0), ("p", 0.5)],
         "frac": core.lat([0.1, 0.5, 0.9, 1.1, 3.0, 10.0], seed),
@@ -90,10 +90,11 @@ def coarse_spaces(tier, seed):
         return True
 
     ideal = dict(base, kind=["ideal_iso", "ideal_noniso"], prog=["none", "poly", "poly_cross0"],
-                 P=[(1e-3, 2e-5), (3e-5, 4e-3)], tref_offset=[0.0, -12.0])
+                 P=[(1e-3, 2e-5), (3e-5, 4e-3), (1e-3, 8e-4)], tref_offset=[0.0, -12.0])  # incl. a weakly selective membrane:
+    # both components over-drawn together keeps the mass fraction inside [0, 1], so the Composition validator is blind
     non = dict(base, kind=["nonideal_iso", "nonideal_noniso"], prog=["none", "poly", "poly_cross0"],
                curves=[spaces.CURVE_CONFIGS["one"], spaces.CURVE_CONFIGS["two"]],
-               init_perm=[None, {"values": (2.5e-2, 3.0e-5)}])
+               init_perm=[None, {"values": (2.5e-2, 3.0e-5)}, {"values": (2.0e-2, 1.5e-2)}])
     return [core.Space("coarse_ideal", ideal, ok), core.Space("coarse_nonideal", non, ok)]
 
 
